@@ -46,6 +46,9 @@ var apiTexts = map[string]string{
 	"heir":     "{ // {allOf: \"@typeObj\"}\n  \"hk\": 1\n}",
 	"typeObj":  "{\n  \"ok\": 1\n}",
 	"usesHeir": `{"r": @heir}`,
+	// a root that is nothing but a reference to an object type / a choice between an object type and a string type
+	"rootRef":    `@typeObj`,
+	"rootChoice": `@typeObj | @t`,
 	// a type with two defective choices: four internal (unnamed) types, the first defect in source order is reported
 	"typeC": "{\n  \"p\": @n1 | @n2,\n  \"q\": @n3 | @n4\n}",
 }
@@ -260,6 +263,17 @@ func apiDefectSources(content string, regs []string) int {
 		case "badscan", "badrule", "badvalue", "blank", "comment", "typeC", "badvalueCR", "badscanCR", "badrefLF":
 			n++
 		case "usesT":
+			if !hasT {
+				n++
+			}
+		case "rootRef":
+			if !hasObj {
+				n++
+			}
+		case "rootChoice":
+			if !hasObj {
+				n++
+			}
 			if !hasT {
 				n++
 			}
